@@ -205,6 +205,21 @@ theorem solve_returns {n nx : Nat} (s : State ℝ n n) (B : Mat ℝ n nx) (hn : 
   rw [if_neg this, if_pos hnx]
   exact ⟨_, _, rfl⟩
 
+
+/-- "never a silently wrong answer": on a square decomposition with a right-hand side of the
+right height and at least one column, `solve` either raises `ZeroDivisionException` (exactly when
+the smallest pivot magnitude fails the guard) or returns — nothing else -/
+theorem solve_outcome {n nx : Nat} (s : State ℝ n n) (B : Mat ℝ n nx) (hn : 0 < n) (hnx : 0 < nx) :
+    (belowThreshold (minDiag s rfl hn) = true ∧ solve s B = .error .zeroDivision) ∨
+    (belowThreshold (minDiag s rfl hn) = false ∧ ∃ X, solve s B = .ok (minDiag s rfl hn, X)) := by
+  unfold solve
+  rw [dif_pos rfl, dif_pos ⟨rfl, hn⟩]
+  simp only
+  by_cases hb : belowThreshold (minDiag s rfl hn) = true
+  · left; rw [if_pos hb]; exact ⟨hb, rfl⟩
+  · right; rw [if_neg hb, if_pos hnx]
+    exact ⟨by simpa using hb, _, rfl⟩
+
 /-- a right-hand side of the wrong height is refused (`BadIntegerException`) before anything else -/
 theorem wrong_height_raises {m n mb nx : Nat} (s : State ℝ m n) (B : Mat ℝ mb nx) (h : mb ≠ m) :
     solve s B = .error .badInteger := by
